@@ -66,6 +66,9 @@ type spec struct {
 	// through, locals given as "name:type") returned in front of the Go results. Output goes to -codec.
 	Mode string   `json:"mode,omitempty"`
 	Outs []string `json:"outs,omitempty"`
+	// Boxed (byte-slice mode, bytes_boxed.go): Go struct / interface types whose values are carried as values of a
+	// named Lean type, with one Lean term template per concrete struct type ("{Field}" = current value of the field).
+	Boxed map[string]boxDef `json:"boxed,omitempty"`
 }
 
 var fset = token.NewFileSet()
